@@ -428,7 +428,18 @@ public:
 class collapse_posts : public item_handler<post_t>
 {
 
-  typedef std::map<account_t *,value_t> totals_map;
+  // The collapsed rows of a transaction are reported in the order of the
+  // account names, not of the addresses the accounts happen to have
+  struct compare_account_names {
+    bool operator()(const account_t * left, const account_t * right) const {
+      const string left_name(left->fullname());
+      const string right_name(right->fullname());
+      if (left_name != right_name)
+        return left_name < right_name;
+      return left < right;
+    }
+  };
+  typedef std::map<account_t *, value_t, compare_account_names> totals_map;
 
   expr_t&             amount_expr;
   predicate_t         display_predicate;
